@@ -1,6 +1,7 @@
 """C12 - --clean never deletes a PEL whose output was not completely written (E3: fault and crash enumeration)."""
 import itertools
 import json
+from mc import strictjson
 import os
 import shutil
 import tempfile
@@ -91,7 +92,7 @@ class Run:
     def __init__(self, scen, schedule):
         self.scen = scen
         self.world = faultio.World({int(k): tuple(v) for k, v in schedule.items()}, scen['K'])
-        self.root = tempfile.mkdtemp(prefix='c12_', dir=clidrv.scratch_root())
+        self.root = tempfile.mkdtemp(prefix='c12_', dir=clidrv.odd_root())
         self.removed_at = {}     # input name -> dict(complete=bool, closed=bool)
         self.inputs = {}
         self.result = None
@@ -309,7 +310,7 @@ def run_chunk(chunk):
 def _subproc(res):
     """Real executable, real OS faults."""
     n_ok = 0
-    root = tempfile.mkdtemp(prefix='c12s_', dir=clidrv.scratch_root())
+    root = tempfile.mkdtemp(prefix='c12s_', dir=clidrv.odd_root())
     try:
         def fresh(name, data):
             p = os.path.join(root, name)
@@ -374,6 +375,46 @@ def _subproc(res):
         p = fresh('in_ok', good)
         rc, so, se = clidrv.run_subprocess(['-f', p, '--clean'])
         runs.append(('-f --clean (no fault)', os.path.exists(p), False, 'ok'))
+        # 7. whenever the input is gone, the complete document must be there - also with assertions stripped (python -O)
+        p = fresh('ref_in', good)
+        rc, ref_out, se = clidrv.run_subprocess(['-f', p])
+        ref_doc = strictjson.loads(ref_out)
+        for opt in (False, True):
+            tag = ' under python -O' if opt else ''
+            d7 = os.path.join(root, 'pels7_%d' % opt)
+            o7 = os.path.join(root, 'out7_%d' % opt)
+            os.mkdir(d7)
+            os.mkdir(o7)
+            with open(os.path.join(d7, 'in7'), 'wb') as f:
+                f.write(good)
+            clidrv.run_subprocess(['-p', d7, '-j', '-c', '-o', o7], optimize=opt)
+            removed = not os.path.exists(os.path.join(d7, 'in7'))
+            try:
+                with open(os.path.join(o7, 'in7.50000A01.json')) as f:
+                    complete = strictjson.loads(f.read()) == ref_doc
+            except Exception:
+                complete = False
+            case = {'subprocess': True, 'run': '-j -c -o (no fault)' + tag}
+            res.case(nontrivial_key=json.dumps(case), outcome='subproc:complete=%s:removed=%s' % (complete, removed))
+            if removed and not complete:
+                res.violation('C12:removed-without-complete-output', 'real executable: --json --clean%s removed the input although the '
+                              'JSON file is missing or incomplete' % tag, case)
+            elif removed:
+                n_ok += 1       # (keeping the input is always safe: not a violation, only no evidence)
+            p = fresh('in7f_%d' % opt, good)
+            rc, so, se = clidrv.run_subprocess(['-f', p, '--clean'], optimize=opt)
+            removed = not os.path.exists(p)
+            try:
+                complete = strictjson.loads(so) == ref_doc
+            except Exception:
+                complete = False
+            case = {'subprocess': True, 'run': '-f --clean (no fault)' + tag}
+            res.case(nontrivial_key=json.dumps(case), outcome='subproc:complete=%s:removed=%s' % (complete, removed))
+            if removed and not complete:
+                res.violation('C12:removed-without-complete-output', 'real executable: --file --clean%s removed the input although the '
+                              'printed document is incomplete' % tag, case)
+            else:
+                n_ok += 1
         for name, exists, must_exist, why in runs:
             case = {'subprocess': True, 'run': name}
             res.case(nontrivial_key=json.dumps(case), outcome='subproc:%s:%s' % (why, 'kept' if exists else 'removed'))
